@@ -9,14 +9,25 @@ from common import Ctx, hx, import_repo
 from faultrun import OPS, Scripted, ev_tokens, scripts_for
 
 
-def has_reply(c):
-    return not c.get("nr", False) if c["op"] not in ("get", "gets", "gat", "gats", "get_many", "gets_many", "version") else True
+def has_reply(c, dnr=False):
+    if c["op"] in ("get", "gets", "gat", "gats", "get_many", "gets_many", "version"):
+        return True
+    nr = c.get("nr", False)
+    if nr is None:
+        nr = False if c["op"] in ("incr", "decr", "cas") else dnr     # incr/decr/cas: None is falsy, not "use the default"
+    return not nr
 
 
 def mk(kind, Scr, classes):
     Client, PooledClient, HashClient = classes
     if kind == "Client":
         return Client(("h", 1), socket_module=Scr.sm, default_noreply=False)
+    if kind == "ClientDnr":
+        return Client(("h", 1), socket_module=Scr.sm, default_noreply=True)
+    if kind == "ClientIgn":
+        return Client(("h", 1), socket_module=Scr.sm, default_noreply=False, ignore_exc=True)
+    if kind == "PooledDnr":
+        return PooledClient(("h", 1), socket_module=Scr.sm, default_noreply=True, max_pool_size=2)
     if kind == "Pooled":
         return PooledClient(("h", 1), socket_module=Scr.sm, default_noreply=False, max_pool_size=2)
     if kind == "Hash1":
@@ -35,9 +46,9 @@ def client_socks(kind, obj):
     def of_client(c):
         if getattr(c, "sock", None) is not None:
             out.append(c.sock)
-    if kind == "Client":
+    if kind in ("Client", "ClientDnr", "ClientIgn"):
         of_client(obj)
-    elif kind == "Pooled":
+    elif kind in ("Pooled", "PooledDnr"):
         for c in list(obj.client_pool._free_objs) + list(obj.client_pool._used_objs):
             of_client(c)
     else:
@@ -57,7 +68,9 @@ def run_sequence(ctx, kind, classes, seq, rng, model_lines, model_meta):
     W = S.world
     desc = []
     for n, (call, script) in enumerate(seq):
-        open_before = kind == "Client" and obj.sock is not None
+        is_client = kind in ("Client", "ClientDnr", "ClientIgn")
+        dnr = kind in ("ClientDnr", "PooledDnr")
+        open_before = is_client and obj.sock is not None
         leftover_before = []
         if open_before:
             leftover_before = [p[1] if p[0] == "data" else (p[0],) if p[0] != "exc" else ("exc", p[1]) for p in obj.sock.pipe]
@@ -76,7 +89,7 @@ def run_sequence(ctx, kind, classes, seq, rng, model_lines, model_meta):
             ctx.violation("a call read bytes that answer an earlier call", dict(case, foreign=W.foreign_reads[nfr]), tags=tags + ["foreign-read"])
             return False
         recvs = [e for e in W.ledger[nled:] if e[0] == "recv"]
-        if not has_reply(call) and recvs:
+        if not has_reply(call, dnr) and recvs:
             ctx.violation("a noreply call waited for a reply", case, tags=tags + ["noreply-reads"])
             return False
         complete = not script or script.get("mutation", "valid") in ("valid", "error-line", "server-error", "garbage-line", "wrong-key", "non-numeric-size", "extra-crlf-garbage")
@@ -87,14 +100,14 @@ def run_sequence(ctx, kind, classes, seq, rng, model_lines, model_meta):
             if not s.closed and W.leftover(s) > 0:
                 ctx.violation("a call ended with the connection still in use and reply bytes left unread on it", dict(case, unread=W.leftover(s)), tags=tags + ["leftover"])
                 return False
-        if kind == "Client" and model_lines is not None:
+        if is_client and model_lines is not None:
             evs = list(leftover_before)
             for cid, pushed in S.pushed:
                 evs += pushed
             cf = script.get("connect_fault")
             sfk = script.get("send_fault")
             from clientlib import SOCK_CODES
-            line = (f"call {cfg_tok(dnr=False)} open={int(open_before)} {call_tokens(call)} "
+            line = (f"call {cfg_tok(dnr=dnr, ign=(kind == 'ClientIgn'))} open={int(open_before)} {call_tokens(call)} "
                     f"cf={'x' + str(SOCK_CODES[cf[1]]) if cf else '-'} sf={'x' + str(SOCK_CODES[sfk]) if sfk else '-'} {ev_tokens(evs)}")
             sock_open = obj.sock is not None
             unread = W.leftover(obj.sock) if sock_open else None
@@ -117,23 +130,23 @@ def main(argv):
                 "classes Client, PooledClient, HashClient(1 and 2 servers, pooled); plus random sequences with several scripted calls; "
                 "non-trivial = distinct (class, sequence)")
     model_lines, model_meta = [], []
-    kinds = ["Client", "Pooled", "Hash1", "Hash2", "HashPooled"]
+    kinds = ["Client", "ClientDnr", "ClientIgn", "Pooled", "PooledDnr", "Hash1", "Hash2", "HashPooled"]
     followups = [c for c in OPS if c["op"] in ("get", "add", "set", "incr", "get_many", "delete", "gets", "version")]
     n = 0
     for kind in kinds:
         for oi, call in enumerate(OPS):
-            scripts = scripts_for(has_reply(call), rng, ctx.thorough)
+            scripts = scripts_for(has_reply(call, kind in ("ClientDnr", "PooledDnr")), rng, ctx.thorough)
             if kind not in ("Client", "Pooled") and not ctx.thorough:
-                scripts = scripts[::3]
+                scripts = scripts[::3] if kind.startswith("Hash") else scripts[::2]
             for si, script in enumerate(scripts):
-                for warm in ((False, True) if (kind == "Client" or ctx.thorough) else (bool((oi + si) % 2),)):
+                for warm in ((False, True) if (kind in ("Client", "ClientIgn") or ctx.thorough) else (bool((oi + si) % 2),)):
                     seq = []
                     if warm:
                         seq.append(({"op": "set", "k": "a", "v": b"7", "nr": False}, {}))
                     seq.append((call, script))
                     for j in range(3 if ctx.thorough else 2):
                         seq.append((followups[(oi * 7 + si * 3 + j * 5) % len(followups)], {}))
-                    ok = run_sequence(ctx, kind, classes, seq, rng, model_lines if kind == "Client" else None, model_meta)
+                    ok = run_sequence(ctx, kind, classes, seq, rng, model_lines if kind in ("Client", "ClientDnr", "ClientIgn") else None, model_meta)
                     n += 1
                     ctx.case((kind, oi, si, warm), sample={"class": kind, "calls": [c["op"] for c, _ in seq], "script": repr(script)} if n in (50, 3000) else None)
                     ctx.count("class:" + kind)
@@ -144,9 +157,9 @@ def main(argv):
         seq = []
         for _ in range(rng.randrange(3, 9)):
             call = rng.choice(OPS)
-            script = rng.choice(scripts_for(has_reply(call), rng, False)) if rng.random() < .4 else {}
+            script = rng.choice(scripts_for(has_reply(call, kind in ("ClientDnr", "PooledDnr")), rng, False)) if rng.random() < .4 else {}
             seq.append((call, script))
-        run_sequence(ctx, kind, classes, seq, rng, model_lines if kind == "Client" else None, model_meta)
+        run_sequence(ctx, kind, classes, seq, rng, model_lines if kind in ("Client", "ClientDnr", "ClientIgn") else None, model_meta)
         ctx.case(("rand", kind, repr(seq)))
         ctx.count("random-sequences")
     if ctx.lean.build_ok and model_lines:
